@@ -1,409 +1,4 @@
-// C04 correspondence driver: runs the REAL canonicalisation / signing code of
-// proxy_agent/src/common/hyper_client.rs and helpers.rs on scripts read from stdin, one JSON
-// result per input line.  Fields are hex strings prefixed with 'x' ("x" = empty), "-" = absent.
-//
-//   U <method> <target>                       Method::from_bytes, Uri::try_from, then
-//                                             path(), query(), to_string(), query_pairs,
-//                                             get_path_and_canonicalized_parameters (H3 tap),
-//                                             should_skip_sig
-//   H <n> (<name> <value>)*n                  HeaderMap built by append; its iteration order and
-//                                             headers_to_canonicalized_string (H3 tap)
-//   S <method> <target> <body> <key> <n> (<name> <value>)*n
-//                                             proxied route: request_to_sign_input on the builder
-//                                             (H3 tap), as_sig_input(parts, body),
-//                                             compute_signature(key, input)
-//   B <method> <full url> <body|-> <key|-> <guid|-> <n> (<name> <value>)*n
-//                                             the agent's own calls: build_request; prints the
-//                                             built request (method, target, headers, body)
-//
-//   R <calls>                                 the agent's own calls under a rotating key: the real
-//                                             WireServerClient::get_goalstate / get_shared_config and
-//                                             ImdsClient::get_imds_instance_info run <calls> times each
-//                                             against a raw-socket mock host while a task latches two keys
-//                                             alternately (KeyKeeperSharedState::update_key, a yield
-//                                             between updates); prints every request the host received and
-//                                             the two keys, so that the check can verify each request under
-//                                             the key NAMED in its authorization header
-//
-// Every library rejection is reported distinctly ({"reject": "..."}) so that the model is never
-// asked about an input the code does not see; a panic inside the code under test is caught and
-// reported as {"panic": true} (header values with a byte >= 0x80: C13's subject, F7).
-// No command-line arguments (see DESIGN 1.7).
-use gpa::common::helpers;
-use gpa::common::hyper_client;
-use gpa::common::hyper_client::verif_taps;
-use http::header::{HeaderName, HeaderValue};
-use http::{HeaderMap, Method, Request, Uri};
-use http_body_util::BodyExt;
-use hyper::body::Bytes;
-use serde_json::{json, Value};
-use std::collections::HashMap;
-use std::io::{self, BufRead, Write};
-use std::panic::{catch_unwind, AssertUnwindSafe};
-
-fn unhex(t: &str) -> Option<Vec<u8>> {
-    if t == "-" {
-        return None;
-    }
-    let t = t.strip_prefix('x').expect("field must start with x");
-    let b = t.as_bytes();
-    assert!(b.len() % 2 == 0);
-    let v = |c: u8| -> u8 {
-        match c {
-            b'0'..=b'9' => c - b'0',
-            b'a'..=b'f' => c - b'a' + 10,
-            _ => panic!("bad hex in script"),
-        }
-    };
-    Some((0..b.len() / 2).map(|i| v(b[2 * i]) * 16 + v(b[2 * i + 1])).collect())
-}
-
-fn hx(b: &[u8]) -> String {
-    let mut s = String::with_capacity(b.len() * 2 + 1);
-    s.push('x');
-    for c in b {
-        s.push_str(&format!("{:02x}", c));
-    }
-    s
-}
-
-fn header_list(h: &HeaderMap) -> Value {
-    Value::Array(
-        h.iter()
-            .map(|(k, v)| json!([hx(k.as_str().as_bytes()), hx(v.as_bytes())]))
-            .collect(),
-    )
-}
-
-fn parse_pairs<'a>(it: &mut impl Iterator<Item = &'a str>) -> Vec<(Vec<u8>, Vec<u8>)> {
-    let n: usize = it.next().unwrap().parse().unwrap();
-    (0..n)
-        .map(|_| {
-            let k = unhex(it.next().unwrap()).unwrap();
-            let v = unhex(it.next().unwrap()).unwrap();
-            (k, v)
-        })
-        .collect()
-}
-
-fn build_map(pairs: &[(Vec<u8>, Vec<u8>)]) -> Result<HeaderMap, Value> {
-    let mut map = HeaderMap::new();
-    for (i, (k, v)) in pairs.iter().enumerate() {
-        let name = match HeaderName::from_bytes(k) {
-            Ok(n) => n,
-            Err(_) => return Err(json!({"reject": "header-name", "index": i})),
-        };
-        let value = match HeaderValue::from_bytes(v) {
-            Ok(v) => v,
-            Err(_) => return Err(json!({"reject": "header-value", "index": i})),
-        };
-        map.append(name, value);
-    }
-    Ok(map)
-}
-
-fn op_u<'a>(it: &mut impl Iterator<Item = &'a str>) -> Value {
-    let m = unhex(it.next().unwrap()).unwrap();
-    let t = unhex(it.next().unwrap()).unwrap();
-    let method = match Method::from_bytes(&m) {
-        Ok(m) => m,
-        Err(_) => return json!({"reject": "method"}),
-    };
-    let uri = match Uri::try_from(t.as_slice()) {
-        Ok(u) => u,
-        Err(_) => return json!({"reject": "uri"}),
-    };
-    let r = catch_unwind(AssertUnwindSafe(|| {
-        let pairs = hyper_client::query_pairs(&uri);
-        let pp = verif_taps::get_path_and_canonicalized_parameters(&uri);
-        let skip = hyper_client::should_skip_sig(&method, &uri);
-        json!({
-            "method": hx(method.as_str().as_bytes()),
-            "path": hx(uri.path().as_bytes()),
-            "query": uri.query().map(|q| hx(q.as_bytes())),
-            "has_authority": uri.authority().is_some(),
-            "to_string": hx(uri.to_string().as_bytes()),
-            "pairs": pairs.iter().map(|(k, v)| json!([hx(k.as_bytes()), hx(v.as_bytes())])).collect::<Vec<_>>(),
-            "canon_path": hx(pp.0.as_bytes()),
-            "canon_params": hx(pp.1.as_bytes()),
-            "skip": skip,
-        })
-    }));
-    r.unwrap_or_else(|_| json!({"panic": true}))
-}
-
-fn op_h<'a>(it: &mut impl Iterator<Item = &'a str>) -> Value {
-    let pairs = parse_pairs(it);
-    let map = match build_map(&pairs) {
-        Ok(m) => m,
-        Err(v) => return v,
-    };
-    let iter = header_list(&map);
-    match catch_unwind(AssertUnwindSafe(|| verif_taps::headers_to_canonicalized_string(&map))) {
-        Ok(s) => json!({"iter": iter, "canon": hx(s.as_bytes())}),
-        Err(_) => json!({"iter": iter, "panic": true}),
-    }
-}
-
-fn op_s<'a>(it: &mut impl Iterator<Item = &'a str>) -> Value {
-    let m = unhex(it.next().unwrap()).unwrap();
-    let t = unhex(it.next().unwrap()).unwrap();
-    let body = unhex(it.next().unwrap()).unwrap();
-    let key = unhex(it.next().unwrap()).unwrap();
-    let pairs = parse_pairs(it);
-    let method = match Method::from_bytes(&m) {
-        Ok(m) => m,
-        Err(_) => return json!({"reject": "method"}),
-    };
-    let uri = match Uri::try_from(t.as_slice()) {
-        Ok(u) => u,
-        Err(_) => return json!({"reject": "uri"}),
-    };
-    let key = match String::from_utf8(key) {
-        Ok(k) => k,
-        Err(_) => return json!({"reject": "key-utf8"}),
-    };
-    let map = match build_map(&pairs) {
-        Ok(m) => m,
-        Err(v) => return v,
-    };
-    let iter = header_list(&map);
-    let r = catch_unwind(AssertUnwindSafe(|| {
-        // the builder exactly as the request is about to be built from it
-        let mut builder = Request::builder().method(method.clone()).uri(uri.clone());
-        for (k, v) in map.iter() {
-            builder = builder.header(k.clone(), v.clone());
-        }
-        let tap = verif_taps::request_to_sign_input(&builder, Some(body.clone()));
-        let tap_nobody = verif_taps::request_to_sign_input(&builder, None);
-        let request = builder.body(()).unwrap();
-        let (head, _) = request.into_parts();
-        let head_headers = header_list(&head.headers);
-        let input = hyper_client::as_sig_input(head, Bytes::from(body.clone()));
-        let sig = helpers::compute_signature(&key, input.as_slice());
-        json!({
-            "iter": head_headers,
-            "sig_input": hx(&input),
-            "tap": tap.ok().map(|v| hx(&v)),
-            "tap_nobody": tap_nobody.ok().map(|v| hx(&v)),
-            "signature": sig.ok(),
-        })
-    }));
-    r.unwrap_or_else(|_| json!({"iter": iter, "panic": true}))
-}
-
-fn op_b<'a>(it: &mut impl Iterator<Item = &'a str>, rt: &tokio::runtime::Runtime) -> Value {
-    let m = unhex(it.next().unwrap()).unwrap();
-    let t = unhex(it.next().unwrap()).unwrap();
-    let body = unhex(it.next().unwrap());
-    let key = unhex(it.next().unwrap());
-    let guid = unhex(it.next().unwrap());
-    let pairs = parse_pairs(it);
-    let method = match Method::from_bytes(&m) {
-        Ok(m) => m,
-        Err(_) => return json!({"reject": "method"}),
-    };
-    let uri = match Uri::try_from(t.as_slice()) {
-        Ok(u) => u,
-        Err(_) => return json!({"reject": "uri"}),
-    };
-    let to_s = |o: Option<Vec<u8>>| -> Result<Option<String>, Value> {
-        match o {
-            None => Ok(None),
-            Some(b) => String::from_utf8(b).map(Some).map_err(|_| json!({"reject": "utf8"})),
-        }
-    };
-    let key = match to_s(key) {
-        Ok(k) => k,
-        Err(v) => return v,
-    };
-    let guid = match to_s(guid) {
-        Ok(k) => k,
-        Err(v) => return v,
-    };
-    let mut headers: HashMap<String, String> = HashMap::new();
-    for (k, v) in pairs {
-        match (String::from_utf8(k), String::from_utf8(v)) {
-            (Ok(k), Ok(v)) => {
-                headers.insert(k, v);
-            }
-            _ => return json!({"reject": "utf8"}),
-        }
-    }
-    let r = catch_unwind(AssertUnwindSafe(|| {
-        match hyper_client::build_request(method, &uri, &headers, body.as_deref(), guid, key) {
-            Err(e) => json!({"err": e.to_string()}),
-            Ok(req) => {
-                let (head, b) = req.into_parts();
-                let collected = rt.block_on(async { b.collect().await.map(|c| c.to_bytes()) });
-                let body_bytes = match collected {
-                    Ok(b) => b,
-                    Err(_) => return json!({"err": "body-collect"}),
-                };
-                json!({
-                    "method": hx(head.method.as_str().as_bytes()),
-                    "path": hx(head.uri.path().as_bytes()),
-                    "query": head.uri.query().map(|q| hx(q.as_bytes())),
-                    "has_authority": head.uri.authority().is_some(),
-                    "headers": header_list(&head.headers),
-                    "body": hx(&body_bytes),
-                })
-            }
-        }
-    }));
-    r.unwrap_or_else(|_| json!({"panic": true}))
-}
-
-const ROT_KEYS: [(&str, &str); 2] = [
-    (
-        "11111111-c04c-4c04-8c04-c04c04c04c04",
-        "4A404E635266556A586E3272357538782F413F4428472B4B6250645367566B59",
-    ),
-    (
-        "22222222-c04c-4c04-8c04-c04c04c04c04",
-        "7134743777217a25432a462d4a614e645267556b58703273357638792f423f45",
-    ),
-];
-
-fn find(hay: &[u8], needle: &[u8]) -> Option<usize> {
-    hay.windows(needle.len()).position(|w| w == needle)
-}
-
-/// raw-socket mock host: records (head bytes, body bytes) of every request, answers 503
-fn start_mock_host() -> (u16, std::sync::mpsc::Receiver<(Vec<u8>, Vec<u8>)>) {
-    use std::io::Read;
-    let listener = std::net::TcpListener::bind((std::net::Ipv4Addr::LOCALHOST, 0)).unwrap();
-    let port = listener.local_addr().unwrap().port();
-    let (tx, rx) = std::sync::mpsc::channel();
-    std::thread::spawn(move || {
-        for stream in listener.incoming() {
-            let mut stream = match stream {
-                Ok(s) => s,
-                Err(_) => return,
-            };
-            let tx = tx.clone();
-            std::thread::spawn(move || {
-                let mut buf: Vec<u8> = Vec::new();
-                let mut tmp = [0u8; 4096];
-                loop {
-                    let head_end = loop {
-                        if let Some(p) = find(&buf, b"\r\n\r\n") {
-                            break p;
-                        }
-                        match stream.read(&mut tmp) {
-                            Ok(0) | Err(_) => return,
-                            Ok(n) => buf.extend_from_slice(&tmp[..n]),
-                        }
-                    };
-                    let head = buf[..head_end].to_vec();
-                    let cl = String::from_utf8_lossy(&head)
-                        .split("\r\n")
-                        .filter_map(|l| l.split_once(':'))
-                        .find(|(n, _)| n.eq_ignore_ascii_case("content-length"))
-                        .and_then(|(_, v)| v.trim().parse::<usize>().ok())
-                        .unwrap_or(0);
-                    while buf.len() < head_end + 4 + cl {
-                        match stream.read(&mut tmp) {
-                            Ok(0) | Err(_) => return,
-                            Ok(n) => buf.extend_from_slice(&tmp[..n]),
-                        }
-                    }
-                    let body = buf[head_end + 4..head_end + 4 + cl].to_vec();
-                    buf.drain(..head_end + 4 + cl);
-                    let _ = tx.send((head, body));
-                    if stream
-                        .write_all(b"HTTP/1.1 503 Service Unavailable\r\nContent-Length: 0\r\n\r\n")
-                        .is_err()
-                    {
-                        return;
-                    }
-                }
-            });
-        }
-    });
-    (port, rx)
-}
-
-fn op_r<'a>(it: &mut impl Iterator<Item = &'a str>, rt: &tokio::runtime::Runtime) -> Value {
-    use gpa::host_clients::imds_client::ImdsClient;
-    use gpa::host_clients::wire_server_client::WireServerClient;
-    use gpa::key_keeper::key::Key;
-    use gpa::shared_state::key_keeper_wrapper::KeyKeeperSharedState;
-    use std::sync::atomic::{AtomicBool, Ordering};
-    use std::sync::Arc;
-    let calls: usize = it.next().unwrap().parse().unwrap();
-    let (port, received) = start_mock_host();
-    let key = |n: usize| -> Key {
-        let mut k = Key::empty();
-        k.guid = ROT_KEYS[n].0.to_string();
-        k.key = ROT_KEYS[n].1.to_string();
-        k.incarnationId = Some(n as u32 + 1);
-        k
-    };
-    let r = catch_unwind(AssertUnwindSafe(|| {
-        rt.block_on(async {
-            let state = KeyKeeperSharedState::start_new();
-            state.update_key(key(0)).await.unwrap();
-            let stop = Arc::new(AtomicBool::new(false));
-            let rotator = tokio::spawn({
-                let state = state.clone();
-                let stop = stop.clone();
-                async move {
-                    let mut n = 0usize;
-                    while !stop.load(Ordering::SeqCst) {
-                        n += 1;
-                        let _ = state.update_key(key(n % 2)).await;
-                        tokio::task::yield_now().await;
-                    }
-                    n
-                }
-            });
-            let ws = WireServerClient::new("127.0.0.1", port, state.clone());
-            let imds = ImdsClient::new("127.0.0.1", port, state.clone());
-            for i in 0..calls {
-                let _ = ws.get_goalstate().await;
-                let _ = ws
-                    .get_shared_config(format!("http://127.0.0.1:{}/machine/x?comp=config&type=sharedConfig&incarnation={}", port, i))
-                    .await;
-                let _ = imds.get_imds_instance_info().await;
-            }
-            stop.store(true, Ordering::SeqCst);
-            rotator.await.unwrap_or(0)
-        })
-    }));
-    let rotations = match r {
-        Ok(n) => n,
-        Err(_) => return json!({"panic": true}),
-    };
-    std::thread::sleep(std::time::Duration::from_millis(50));
-    let mut reqs = Vec::new();
-    while let Ok((head, body)) = received.try_recv() {
-        reqs.push(json!({"head": hx(&head), "body": hx(&body)}));
-    }
-    json!({
-        "requests": reqs,
-        "rotations": rotations,
-        "keys": ROT_KEYS.iter().map(|(g, k)| json!([g, k])).collect::<Vec<_>>(),
-    })
-}
-
+// thin entry point: the driver is compiled inside the crate (hook H6, src/drivers/c04.rs)
 fn main() {
-    std::panic::set_hook(Box::new(|_| {}));
-    let rt = tokio::runtime::Builder::new_current_thread().enable_all().build().unwrap();
-    let stdin = io::stdin();
-    let stdout = io::stdout();
-    let mut out = io::BufWriter::new(stdout.lock());
-    for line in stdin.lock().lines() {
-        let line = line.unwrap();
-        let mut it = line.split(' ');
-        let v = match it.next() {
-            Some("U") => op_u(&mut it),
-            Some("H") => op_h(&mut it),
-            Some("S") => op_s(&mut it),
-            Some("B") => op_b(&mut it, &rt),
-            Some("R") => op_r(&mut it, &rt),
-            _ => json!({"bad_line": true}),
-        };
-        writeln!(out, "{}", v).unwrap();
-    }
+    gpa::verif_drivers::c04::main()
 }
